@@ -94,6 +94,8 @@ def generate(seed, tier='quick'):
         if t in ('map', 'seq'):
             spec['r'] = {r: [rng.choice(['ok', 'ok', 'temp', 'perm']), 0]
                          for r in rcpts}
+            if t == 'seq' and rng.random() < 0.5:
+                spec['as'] = 'tuple'
         scn['relay_spec'] = spec
     return scn
 
